@@ -1502,3 +1502,52 @@ twin('C15', 'historical-load-rename', MVCCPY, 'HistoricalStorageAdapter.load',
         if r is None:''', '''        storage = self._storage
         r = storage.loadBefore(oid, self._before)
         if r is None:''')
+
+# ---------------------------------------------------------------- C18
+RZPY = 'ZODB/scripts/repozo.py'
+breaker('C18', 'full-backup-raw-size', 'C18.R1', RZPY, 'do_full_backup',
+        '    pos = fs.getSize()\n', '    pos = os.path.getsize(options.file)\n')
+breaker('C18', 'incremental-not-read-only', 'C18.R1', RZPY,
+        'do_incremental_backup',
+        'fs = FileStorage(options.file, read_only=True)',
+        'fs = FileStorage(options.file)')
+breaker('C18', 'copyfile-rename-before-sync', 'C18.R2', RZPY, 'copyfile',
+        '''    fsync(ofp)
+    ofp.close()
+    os.rename(tempname, dst)''', '''    ofp.close()
+    os.rename(tempname, dst)''')
+breaker('C18', 'recover-writes-in-place', 'C18.R2', RZPY, 'do_recover',
+        "temporary_output_file = options.output + '.part'",
+        "temporary_output_file = options.output")
+breaker('C18', 'dat-line-wrong-end', 'C18.R3', RZPY, 'do_incremental_backup',
+        'print(dest, reposz, pos, sum, file=fp)',
+        'print(dest, reposz, pos - reposz, sum, file=fp)')
+breaker('C18', 'incremental-copies-too-much', 'C18.R3', RZPY,
+        'do_incremental_backup',
+        'sum = copyfile(options, dest, reposz, pos - reposz)',
+        'sum = copyfile(options, dest, reposz, pos)')
+breaker('C18', 'verify-no-checksum', 'C18.R4', RZPY, 'do_verify',
+        '''            elif not options.quick:
+                if actual_sum != sum:
+                    raise VerificationFail(
+                        f"{filename} has checksum {actual_sum}"
+                        f"{when_uncompressed} instead of {sum}")''', '')
+breaker('C18', 'verify-size-mismatch-logged-only', 'C18.R4', RZPY, 'do_verify',
+        '''            if size != expected_size:
+                raise VerificationFail(
+                    "%s is %d bytes%s, should be %d bytes" % (
+                        filename, size, when_uncompressed, expected_size))
+            elif not options.quick:''', '''            if size != expected_size:
+                log("%s is %d bytes%s, should be %d bytes",
+                    filename, size, when_uncompressed, expected_size)
+            elif not options.quick:''')
+breaker('C18', 'incremental-without-prefix-check', 'C18.R5', RZPY, 'do_backup',
+        '''        if reposum == srcsum_backedup:
+            log('doing incremental, starting at: %s', reposz)''',
+        '''        if srcsz > reposz:
+            log('doing incremental, starting at: %s', reposz)''')
+twin('C18', 'full-backup-rename-pos', RZPY, 'do_full_backup',
+     '''    pos = fs.getSize()
+''', '''    end_of_data = fs.getSize()
+    pos = end_of_data
+''')
